@@ -106,3 +106,36 @@ Proof.
     rewrite Forall_forall in Hall. apply b64_encode_inj; auto.
   - intros [c [Hin He]]. exists c. split; [exact Hin|]. apply list_eqb_eq. unfold token_of. rewrite He. reflexivity.
 Qed.
+
+(* ---------- host names: the boolean uniqueness test is NoDup ---------- *)
+Lemma list_eqb_N_eq (a b : list N) : list_eqb N.eqb a b = true <-> a = b.
+Proof.
+  revert b. induction a as [|x a IH]; intros [|y b]; cbn [list_eqb]; try (split; [discriminate|discriminate]).
+  - split; reflexivity.
+  - rewrite andb_true_iff, N.eqb_eq, IH. split; [intros [-> ->]; reflexivity|intros H; inversion H; auto].
+Qed.
+
+Lemma existsb_name_in x l : existsb (name_eqb x) l = true <-> In x l.
+Proof.
+  rewrite existsb_exists. unfold name_eqb. split.
+  - intros [y [Hy E]]. apply list_eqb_N_eq in E. subst. exact Hy.
+  - intros H. exists x. split; [exact H|apply list_eqb_N_eq; reflexivity].
+Qed.
+
+Lemma nodupb_NoDup l : nodupb l = true <-> NoDup l.
+Proof.
+  induction l as [|x l IH]; cbn [nodupb].
+  - split; [constructor|reflexivity].
+  - rewrite andb_true_iff, negb_true_iff, IH. split.
+    + intros [H1 H2]. constructor; [|exact H2]. intros Hin. apply existsb_name_in in Hin. congruence.
+    + intros H. inversion H as [|a b Hn Hd]; subst. split; [|exact Hd].
+      destruct (existsb (name_eqb x) l) eqn:E; [|reflexivity]. apply existsb_name_in in E. contradiction.
+Qed.
+
+Lemma hosts_accepted_iff_proof c :
+  valid_hosts c = true <-> (c_main c <> [] /\ NoDup (main_names c ++ c_ping c ++ c_speed c ++ c_rp c)).
+Proof.
+  unfold valid_hosts, all_names. rewrite andb_true_iff, negb_true_iff, nodupb_NoDup. split.
+  - intros [H1 H2]. split; [destruct (c_main c); [discriminate|discriminate]|exact H2].
+  - intros [H1 H2]. split; [destruct (c_main c); [contradiction|reflexivity]|exact H2].
+Qed.
